@@ -322,7 +322,7 @@ func main() {
 		Encoding: *enc, Solver: *solver, Paths: eng.stats.Paths, PathStatus: eng.stats.PathsByStatus,
 		Queries: map[string]int{"feas_sat": eng.stats.FeasSat, "feas_unsat": eng.stats.FeasUnsat, "feas_unknown": eng.stats.FeasUnknown,
 			"assert_sat": eng.stats.AssertSat, "assert_unsat": eng.stats.AssertUnsat, "assert_unknown": eng.stats.AssertUnknown,
-			"assert_concrete": eng.stats.AssertConcrete, "merged_calls": eng.stats.Merged},
+			"assert_concrete": eng.stats.AssertConcrete, "merged_calls": eng.stats.Merged, "if_conversions": int(eng.ifconv.Load())},
 		Decisions: eng.stats.Decisions, Steps: eng.stats.Steps, SolverTimeS: eng.stats.SolverTime.Seconds(), WallS: wall, LoadS: loadS,
 		ReachSites: map[string]int{}, MaxAlloc: eng.stats.MaxAllocSeen}
 	seenV := map[string]int{}
